@@ -1426,3 +1426,8 @@ fn longest_busy(ix: &Ix, a: usize) -> u64 {
     }
     best
 }
+
+/// no per-execution oracle (the verdict comes from comparing builds)
+pub fn none(_scn: &Scenario, _tr: &[Ev]) -> Vec<Violation> {
+    Vec::new()
+}
